@@ -453,6 +453,27 @@ fn run_solve(kv: &HashMap<String, String>) -> String {
                 }
                 out.push_str(&format!("selfsol fails={} maxdev={}\n", fails, hx(maxdev)));
             }
+            // y_events against the continuous solution at t_events (per event function: worst deviation)
+            if sol.continuous_sol.is_some() {
+                for (i, (tev, yev)) in sol.t_events.iter().zip(sol.y_events.iter()).enumerate() {
+                    let mut maxdev = 0.0f64;
+                    let mut fails = 0usize;
+                    for (te, ye) in tev.iter().zip(yev.iter()) {
+                        match sol.sol(*te) {
+                            Ok(v) => {
+                                for (a, b) in v.iter().zip(ye.iter()) {
+                                    let dlt = (a - b).abs();
+                                    if dlt > maxdev || dlt.is_nan() {
+                                        maxdev = dlt;
+                                    }
+                                }
+                            }
+                            Err(_) => fails += 1,
+                        }
+                    }
+                    out.push_str(&format!("evsol {} fails={} maxdev={}\n", i, fails, hx(maxdev)));
+                }
+            }
             for q in &query {
                 match sol.sol(*q) {
                     Ok(v) => out.push_str(&format!("sol {} ok {}\n", hx(*q), hxlist(&v))),
